@@ -445,8 +445,20 @@ def run(prop, tier, t0):
 
 
 def replay(prop, v):
-    """re-run the single case of a CC violation: regenerate, compile only that module, report"""
+    """Compile verdicts are deterministic: re-run the check for the recorded tier and report whether the same
+    case (same text, same failure class) is reported again."""
+    import subprocess as sp
     tier = v.get("tier", "quick")
-    print("REPLAY property=%s case: %s" % (prop, v.get("decl", "")[:300]))
-    print("re-run `./check %s --tier %s` – compile verdicts are deterministic; the violation is reproduced iff the same case is listed again" % (prop, tier))
-    return 0
+    print("REPLAY property=%s class=%s case: %s" % (prop, v.get("class"), v.get("decl", "")[:300]))
+    p = sp.run([os.path.join(vlib.VERIF, "check"), prop, "--tier", tier], cwd=vlib.VERIF, stdout=sp.PIPE, stderr=sp.PIPE, text=True)
+    hits = 0
+    for path in re.findall(r"VIOLATION property=%s replay=(\S+)" % prop, p.stdout):
+        try:
+            with open(path) as f:
+                w = json.load(f)
+        except Exception:
+            continue
+        if w.get("class") == v.get("class") and w.get("decl") == v.get("decl"):
+            hits += 1
+    print("REPLAY reproduced=%s (check exit %d)" % (hits > 0, p.returncode))
+    return 1 if hits > 0 else 0
